@@ -14,6 +14,9 @@
 //	trunc     the document cut at every offset (short ones) / random offsets
 //	flip      one byte replaced (descriptor or payload)
 //	head      a lone hostile head (every kind x width x claimed length) into every destination
+//	long      containers holding more real elements than the pre-sizing cap max(1024, MaxInitLen), honest or
+//	          hostile claimed length, into fast-path and reflection slice / map destinations (zero-size element types too)
+//	bigscalar one string of 2..6 MB with its honest length, over []byte and every io.Reader transport
 //	rand      random bytes, 0..64 long
 //	prefix    EVERY 1- and 2-byte input
 //
@@ -27,6 +30,7 @@ package main
 
 import (
 	"bufio"
+	"bytes"
 	"encoding/hex"
 	"encoding/json"
 	"flag"
@@ -60,7 +64,10 @@ type Job struct {
 	F    int     `json:"f"`
 	D    int     `json:"d"`
 	O    hx.Opts `json:"o"`
-	X    string  `json:"x,omitempty"` // input, hex
+	X    string  `json:"x,omitempty"` // input, hex (followed by XR copies of the byte XB and by XS, for long inputs)
+	XR   int     `json:"xr,omitempty"`
+	XB   int     `json:"xb,omitempty"`
+	XS   string  `json:"xs,omitempty"`
 	Kind string  `json:"k"`
 	Ex   int     `json:"e"` // -1: single input; 0..255: every input that starts with this byte and is 1 or 2 bytes long
 }
@@ -84,6 +91,18 @@ type Result struct {
 	Obs      string      `json:"obs,omitempty"` // blocks: "cls/nread" of every input, for the model
 }
 
+func (j Job) input() []byte {
+	in, _ := hex.DecodeString(j.X)
+	if j.XR > 0 {
+		in = append(in, bytes.Repeat([]byte{byte(j.XB)}, j.XR)...)
+		suf, _ := hex.DecodeString(j.XS)
+		in = append(in, suf...)
+	}
+	return in
+}
+
+func (j Job) inputLen() int { return len(j.X)/2 + j.XR + len(j.XS)/2 }
+
 // ---------------- worker ----------------
 
 var allocSample = []metrics.Sample{{Name: "/gc/heap/allocs:bytes"}}
@@ -95,7 +114,7 @@ func heapAllocs() uint64 {
 
 const (
 	timeK2 = 400 * time.Millisecond
-	timeK3 = 50 * time.Microsecond // per input byte
+	timeK3 = 5 * time.Microsecond // per input byte
 )
 
 func decodeOnce(f hx.Fmt, o hx.Opts, h codec.Handle, t reflect.Type, in []byte) (cls, nread int, alloc uint64, dur time.Duration, esc bool) {
@@ -195,7 +214,7 @@ func workerMain(path string, from int) {
 		}
 		var res Result
 		if j.Ex < 0 {
-			in, _ := hex.DecodeString(j.X)
+			in := j.input()
 			res.Cls, res.Nread = judgeOne(f, j.O, st, t, func() codec.Handle { return hx.Handle(f, j.O) }, in, &res)
 		} else {
 			h := hx.Handle(f, j.O)
@@ -239,7 +258,7 @@ func (c *ctx) add(f hx.Fmt, d int, o hx.Opts, in []byte, kind string) {
 
 func randOpts(r *vh.Rng, f hx.Fmt) hx.Opts {
 	o := hx.Opts{}
-	o.MaxInitLen = r.PickInt(0, 0, 0, 1, 16, 4096, 70000)
+	o.MaxInitLen = r.PickInt(0, 0, 0, 1, 16, 4096, 70000, -1, math.MinInt)
 	o.MaxDepth = r.PickInt(0, 0, 0, 3, 16)
 	o.ZeroCopy = r.Chance(1, 4)
 	o.Signed = r.Chance(1, 4)
@@ -327,6 +346,33 @@ func structured(c *ctx, docs int) {
 	}
 }
 
+// destFor picks a destination for a lone head of the given kind: half of the time one whose type
+// takes that kind of value (so that the typed container / string paths see the hostile length), else any
+func destFor(c *ctx, kind int) int {
+	if c.r.Chance(1, 2) {
+		return c.r.Intn(len(hx.Dests))
+	}
+	var cands []int
+	for i, d := range hx.Dests {
+		k := d.T.Kind()
+		switch kind {
+		case hx.NMap:
+			if k == reflect.Map || k == reflect.Struct {
+				cands = append(cands, i)
+			}
+		case hx.NArr:
+			if k == reflect.Slice || k == reflect.Array {
+				cands = append(cands, i)
+			}
+		default:
+			if k == reflect.String || (k == reflect.Slice && d.T.Elem().Kind() == reflect.Uint8) || k == reflect.Interface {
+				cands = append(cands, i)
+			}
+		}
+	}
+	return cands[c.r.Intn(len(cands))]
+}
+
 func loneHeads(c *ctx, perHead int) {
 	for _, f := range hx.All {
 		if f == hx.Json {
@@ -356,7 +402,8 @@ func loneHeads(c *ctx, perHead int) {
 						case 3: // as the value of a map entry / struct field "A"
 							in = append(hx.MapStr(f, []string{"A", "C", "X", "zz"}[c.r.Intn(4)]), hb...)
 						}
-						c.add(f, c.r.Intn(len(hx.Dests)), randOpts(c.r, f), in, "head:"+kindName(kind))
+						di := destFor(c, kind)
+						c.add(f, di, randOpts(c.r, f), in, "head:"+kindName(kind))
 					}
 				}
 			}
@@ -388,6 +435,93 @@ func randomBytes(c *ctx, n int) {
 				l = c.r.Intn(6)
 			}
 			c.add(f, c.r.Intn(len(hx.Dests)), randOpts(c.r, f), c.r.Bytes(l), "rand")
+		}
+	}
+}
+
+// long: containers with more real elements than the pre-sizing cap max(1024, MaxInitLen), with an
+// honest or a hostile claimed length, into slice / map destinations (fast-path and reflection ones)
+func longStream(c *ctx, n int) {
+	names := []string{"[]S2", "[][]int", "[]struct{}", "[]iface", "[]int", "[]string", "[][]byte", "[]bool", "[]map[struct{}]struct{}", "[][0]int", "iface", "Raw", "map[int]string", "map[iface]iface"}
+	for _, f := range hx.All {
+		for _, name := range names {
+			d, di := hx.DestByName(name)
+			for q := 0; q < n; q++ {
+				cnt := c.r.PickInt(1030, 1100, 1500, 2500, 5000)
+				o := randOpts(c.r, f)
+				o.MaxInitLen = c.r.PickInt(0, 0, 1, 16, -1, 1200)
+				isMap := d.T.Kind() == reflect.Map
+				var elem *hx.Node
+				switch {
+				case isMap:
+				case d.T.Kind() == reflect.Slice:
+					elem = hx.GenFor(c.r, f, d.T.Elem(), 0)
+				default:
+					elem = hx.U(1)
+				}
+				node := &hx.Node{K: hx.NArr, W: 4}
+				if isMap {
+					node.K = hx.NMap
+					for i := 0; i < cnt; i++ {
+						node.Kids = append(node.Kids, hx.U(uint64(i)), hx.U(1))
+					}
+				} else {
+					for i := 0; i < cnt; i++ {
+						node.Kids = append(node.Kids, elem)
+					}
+				}
+				doc := hx.Emit(f, node)
+				c.add(f, di, o, doc.B, "long:honest")
+				if f == hx.Json || len(doc.Heads) == 0 {
+					continue
+				}
+				lens := hostileLens(f)
+				for k := 0; k < 2; k++ {
+					l := lens[c.r.Intn(len(lens))]
+					c.add(f, di, o, doc.WithHead(0, hx.HeadBytes(f, node.K, l, 8, 0)), "long:hugelen")
+				}
+			}
+		}
+	}
+}
+
+// bigscalar: one string / byte string of several MB with its honest length, over every transport
+func bigScalar(c *ctx, n int) {
+	for _, f := range hx.All {
+		for _, name := range []string{"string", "[]byte", "iface", "Raw", "SkipDst", "S1"} {
+			_, di := hx.DestByName(name)
+			for q := 0; q < n; q++ {
+				size := c.r.PickInt(2<<20, 3<<20+17, 6<<20)
+				kind := hx.NStr
+				if c.r.Chance(1, 3) {
+					kind = hx.NBin
+				}
+				var pre, suf []byte
+				if f == hx.Json {
+					pre, suf = []byte{'"'}, []byte{'"'}
+				} else {
+					pre = hx.HeadBytes(f, kind, uint64(size), 0, 0)
+				}
+				if name == "SkipDst" || name == "S1" {
+					key := "zz"
+					if name == "S1" {
+						key = "B"
+					}
+					pre = append(hx.MapStr(f, key), pre...)
+					suf = append(suf, hx.CloseMap(f)...)
+				}
+				o := hx.Opts{WriteExt: true, MaxInitLen: c.r.PickInt(0, 0, 16, -1)}
+				switch c.r.Intn(4) {
+				case 0:
+				case 1:
+					o.IO, o.RBS, o.Chunk = true, 0, 0
+				case 2:
+					o.IO, o.RBS, o.Chunk = true, 0, c.r.PickInt(1000, 4096)
+				case 3:
+					o.IO, o.RBS, o.Chunk = true, 4096, 0
+				}
+				c.jobs = append(c.jobs, Job{F: int(f), D: di, O: o, X: hex.EncodeToString(pre), XR: size, XB: 'a', XS: hex.EncodeToString(suf), Kind: "bigscalar", Ex: -1})
+			}
 		}
 	}
 }
@@ -507,7 +641,7 @@ func runShard(path string, jobs []Job, out []outcome) {
 		}
 		cur := -1
 		deadline := func(i int) time.Duration {
-			d := 20*time.Second + time.Duration(len(jobs[i].X)/2)*200*time.Microsecond
+			d := 20*time.Second + time.Duration(jobs[i].inputLen())*200*time.Microsecond
 			if jobs[i].Ex >= 0 {
 				d += 60 * time.Second
 			}
@@ -623,6 +757,8 @@ func main() {
 	perHead := flag.Int("heads", 1, "lone hostile heads per (format, kind, width, length)")
 	nRand := flag.Int("rand", 1500, "random inputs per format")
 	nPrefix := flag.Int("prefix", 3, "destinations for the exhaustive 1- and 2-byte prefix stream (0: skip)")
+	nLong := flag.Int("long", 1, "long-container documents per (format, destination)")
+	nBig := flag.Int("big", 1, "multi-MB scalars per (format, destination)")
 	workers := flag.Int("workers", 8, "worker subprocesses")
 	maxModel := flag.Int("model", 1500, "model cases at most")
 	worker := flag.String("worker", "", "(internal) job file")
@@ -641,6 +777,8 @@ func main() {
 	structured(c, *docs)
 	loneHeads(c, *perHead)
 	randomBytes(c, *nRand)
+	longStream(c, *nLong)
+	bigScalar(c, *nBig)
 	// shuffle the single jobs so that shards are balanced, keep the blocks at the end spread round-robin
 	for i := len(c.jobs) - 1; i > 0; i-- {
 		k := c.r.Intn(i + 1)
@@ -728,6 +866,10 @@ func main() {
 			cj["input"] = j.X[:400] + "..."
 			cj["input_len"] = len(j.X) / 2
 		}
+		if j.XR > 0 {
+			cj["input"] = fmt.Sprintf("%s + %d x %02x + %s", j.X, j.XR, j.XB, j.XS)
+			cj["input_len"] = j.inputLen()
+		}
 		switch {
 		case o.fatal == "hang":
 			sum.FailC(j.Kind, "hang:"+cid, "Decode did not return within the deadline (20 s + 0.2 ms per input byte)", cj)
@@ -755,7 +897,7 @@ func main() {
 				sum.FailC(j.Kind, b.Why+":"+cid, what, cb)
 			}
 			if j.Ex < 0 {
-				in, _ := hex.DecodeString(j.X)
+				in := j.input()
 				key := ""
 				if !(j.Kind == "valid" && res.Cls == 0) {
 					key = fmt.Sprintf("%s/%s/c%d", cid, tr, res.Cls)
